@@ -32,8 +32,18 @@ typedef struct {
 #define Z_DATA_ERROR (-3)
 #define Z_MEM_ERROR (-4)
 #define Z_BUF_ERROR (-5)
+#define Z_VERSION_ERROR (-6)
 #define Z_DEFLATED 8
 #define Z_DEFAULT_STRATEGY 0
+
+/* every code zlib can return besides OK / STREAM_END / BUF_ERROR is the class "error"; rotate through
+ * them so that a driver that only recognises some of them is caught by the exact tie */
+static int toy_z_errcode(void)
+{
+	static const int codes[] = { Z_DATA_ERROR, Z_NEED_DICT, Z_MEM_ERROR, Z_STREAM_ERROR, Z_ERRNO, Z_VERSION_ERROR };
+	static unsigned n;
+	return codes[n++ % (sizeof(codes) / sizeof(codes[0]))];
+}
 
 static int toy_z_map(int r)
 {
@@ -41,7 +51,7 @@ static int toy_z_map(int r)
 	case TOY_OK: return Z_OK;
 	case TOY_END: return Z_STREAM_END;
 	case TOY_BUF: return Z_BUF_ERROR;
-	default: return Z_DATA_ERROR;
+	default: return toy_z_errcode();
 	}
 }
 
